@@ -34,7 +34,7 @@ TRANSPARENT = [
     (r".*::first$", [0]), (r".*::last$", [0]), (r".*::first_mut$", [0]), (r".*::last_mut$", [0]),
     (r"std::mem::take$", [0]), (r"std::mem::replace$", [0]), (r"core::mem::take$", [0]),
     (r".*::values$", [0]), (r".*::values_mut$", [0]), (r".*::keys$", [0]), (r".*::drain$", [0]),
-    (r".*Try::branch$", [0]), (r".*FromResidual::from_residual$", [0]), (r".*::from_output$", [0]),
+    (r".*Try>?::branch$", [0]), (r".*FromResidual>?::from_residual$", [0]), (r".*::from_output$", [0]),
     (r".*::collect$", [0]), (r".*::to_lowercase$", [0]), (r".*::to_uppercase$", [0]), (r".*::trim$", [0]),
     (r".*::strip_prefix$", [0]), (r".*::strip_suffix$", [0]),
     (r".*::and_then$", [0]), (r".*::filter$", [0]), (r".*::skip_while$", [0]), (r".*::take_while$", [0]),
